@@ -357,24 +357,7 @@ func (w *World) checkMayBeNil(r *Report, rule string, nf nilField, roots []*ssa.
 			}
 			nsites++
 			// guard: non-nil edge on the same path
-			edges := EdgesWhere(fn, func(base ssa.Value) (bool, bool) {
-				bo, ok := base.(*ssa.BinOp)
-				if !ok || (bo.Op != token.EQL && bo.Op != token.NEQ) {
-					return false, false
-				}
-				var o ssa.Value
-				if isNilConst(bo.Y) {
-					o = bo.X
-				} else if isNilConst(bo.X) {
-					o = bo.Y
-				} else {
-					return false, false
-				}
-				if o == v || samePath(o, v) {
-					return bo.Op == token.NEQ, true
-				}
-				return false, false
-			})
+			edges := nonNilEdgesOf(fn, v)
 			key := fmt.Sprintf("%s.%s @ %s", nf.T.Obj().Name(), nf.Field, funcName(fn))
 			pos := w.Pos(in.Pos())
 			if !in.Pos().IsValid() {
@@ -646,4 +629,64 @@ func (w *World) isPreviousMinter(fn *ssa.Function, v ssa.Value, depth int) bool 
 		}
 	}
 	return true
+}
+
+// nonNilEdgesOf: the edges of fn on which v (or a value with the same access path) is known to be non-nil: the
+// non-nil side of a comparison with nil, and the side of a call of a bool-returning module helper that the helper
+// cannot produce when the corresponding parameter is nil (the helper is explored under "parameter == nil", P7).
+func nonNilEdgesOf(fn *ssa.Function, v ssa.Value) []Edge {
+	return EdgesWhere(fn, func(base ssa.Value) (bool, bool) {
+		switch x := base.(type) {
+		case *ssa.BinOp:
+			if x.Op != token.EQL && x.Op != token.NEQ {
+				return false, false
+			}
+			var o ssa.Value
+			if isNilConst(x.Y) {
+				o = x.X
+			} else if isNilConst(x.X) {
+				o = x.Y
+			} else {
+				return false, false
+			}
+			if o == v || samePath(o, v) {
+				return x.Op == token.NEQ, true
+			}
+		case *ssa.Call:
+			h := boolHelper(x)
+			if h == nil {
+				return false, false
+			}
+			for i, a := range x.Common().Args {
+				if i >= len(h.Params) || !(a == v || samePath(a, v)) {
+					continue
+				}
+				prm := h.Params[i]
+				live := ReachUnder(h, func(b ssa.Value) (bool, bool) {
+					bo, ok := b.(*ssa.BinOp)
+					if !ok || (bo.Op != token.EQL && bo.Op != token.NEQ) {
+						return false, false
+					}
+					if (bo.X == ssa.Value(prm) && isNilConst(bo.Y)) || (bo.Y == ssa.Value(prm) && isNilConst(bo.X)) {
+						return bo.Op == token.EQL, true
+					}
+					return false, false
+				})
+				first, have, all := false, false, true
+				for _, rv := range live.LiveReturns(h, 0) {
+					val, known := live.EvalBool(rv)
+					if !known || (have && val != first) {
+						all = false
+						break
+					}
+					first, have = val, true
+				}
+				if all && have {
+					// with a nil argument the helper always answers `first`: the other answer implies non-nil
+					return !first, true
+				}
+			}
+		}
+		return false, false
+	})
 }
